@@ -6,7 +6,7 @@ import c01, c03, c12, consume
 
 CONFIGS_QUICK = ["F_all", "F_def"]  # every configuration whose cfg-gated code the property depends on
 CONFIGS_THOROUGH = ["F_all", "F_def"]
-TECHNIQUE = 'static analysis: writer/reader delimiter tables against one reference, consumed=advanced path summaries, who-may-write rule for the offset'
+TECHNIQUE = 'static analysis: writer/reader delimiter tables against one reference, consumed=advanced path summaries, who-may-write rule for the offset, diagonal variant table of Event::borrow / into_owned'
 EXPLANATION = (
     "Reader and writer delimiter tables agree: the writer's per-event literals (extracted from Writer::write_event) and the "
     "reader's detection/stripping constants (emit_bang, emit_question_mark, emit_start, dispatch) are both compared with one "
